@@ -6,7 +6,7 @@ from .. import nf
 from .. import tdomain as TD
 from .. import terms as T
 from ..harness import BLOCK, DENSE, EST, ISO, A, Rec, Session, call, events, mcalls, method, rec_of_atoms
-from ..interp import PartialV, WrappedFn
+from ..interp import PartialV, RaiseSignal, WrappedFn
 from ..model import AnalysisError
 from ..tscen import MS
 
@@ -16,6 +16,7 @@ EXPLANATION = (
     "samples are appended after (reverse) / prepended before (forward) consistently with evaluate_marginals; every draw uses a fresh sub-key of a split and the "
     "carried key is the other half; sample_flat is mean + L * base (affine in the standard-normal draw, offset = mean) with one independent draw per entry of the mean and no broadcast of the random term (so the Gram matrix of the map is L L^T per independent column, the covariance of the factorisation); "
     "requested sample shapes are peeled off one axis at a time with independent keys; sample_tree unflattens its own sample_flat."
+    "  Prior sequences on a grid: every transition uses an all-ones calibrated scale, and the factors returned for reverse=True are not the forward factors under another label (known finding)."
 )
 LEVEL = "other"
 TECHNIQUE = "abstract interpretation over the AST: Markov time typestate with an inductive scan check, provenance of PRNG keys, value-numbering normal form (affine in the draw)"
@@ -292,6 +293,7 @@ def prior_grid_rules(chk, S):
     from ..harness import BLOCK, DENSE, ISO
 
     r3 = chk.rule("R-C13-3", "MarkovSequence.from_grid: every transition of the prior sequence uses an all-ones calibrated output scale (the prior's own base scale only)", floor=3)
+    r5 = chk.rule("R-C13-5", "MarkovSequence.from_grid: the factors of a reverse=True sequence are not the forward factors under another label (the same (marginal, conditionals) cannot be both the forward and the backward factorisation of one law)", floor=3)
     for fam, mod, ncls, rank in (("dense", DENSE, "DenseNormal", 1), ("isotropic", ISO, "IsotropicNormal", 2), ("blockdiag", BLOCK, "BlockDiagNormal", 2)):
         it = S.interp()
         mf = T.atom(f"pg_mean_{fam}", ndims={"": rank})
@@ -329,6 +331,24 @@ def prior_grid_rules(chk, S):
         except AnalysisError as e:
             r3.unknown(f"from_grid [{fam}]", str(e), EST_)
             continue
+        # the direction: a backward factorisation of the prior's law on the grid starts from the law at the LAST grid point and conditions
+        # earlier on later states; the forward factors (prior.init, x(t_k+1) | x(t_k)) under the label reverse=True are another law
+        n_fwd = len(calls)
+        try:
+            res_b = it.call(it.getattr(cv, "from_grid", None), [prior], {"grid": A("grid"), "reverse": True}, "<harness>")
+            same_marginal = it.getattr(res_b, "marginal", None) is it.getattr(res, "marginal", None)
+            same_steps = [T.show(k) for k in map(lambda kw_: tuple(sorted(kw_.items(), key=lambda x: x[0])), calls[n_fwd:])] == [T.show(k) for k in map(lambda kw_: tuple(sorted(kw_.items(), key=lambda x: x[0])), calls[:n_fwd])]
+            lab_f, lab_b = it.getattr(res, "reverse", None), it.getattr(res_b, "reverse", None)
+            if lab_f is not False or lab_b is not True:
+                r5.unknown(f"from_grid [{fam}] reverse=True is a backward factorisation of the same law", f"labels {lab_f!r}, {lab_b!r}", EST_)
+            else:
+                r5.require(not (same_marginal and same_steps), f"from_grid [{fam}] reverse=True is a backward factorisation of the same law", "the factors differ from the forward factors",
+                           "from_grid(reverse=True) returns prior.init and the forward transitions x(t_k+1) | x(t_k) of reverse=False, relabelled as backward conditionals: the exact initial condition sits at "
+                           "the last grid point and the sequence is not the prior's law on the grid", EST_, {"factorisation": fam})
+        except RaiseSignal as e:
+            r5.ok(f"from_grid [{fam}] reverse=True is a backward factorisation of the same law", f"reverse=True is rejected loudly ({e.exc})", EST_)
+        except AnalysisError as e:
+            r5.unknown(f"from_grid [{fam}] reverse=True is a backward factorisation of the same law", str(e), EST_)
         S.absorb(it)
         ok = isinstance(scale_arg, T.Term) and scale_arg.op in ("np.ones", "np.ones_like") and not T.value_atoms(scale_arg)
         r3.require(ok, f"from_grid [{fam}] unit calibrated scale", f"output_scale = {T.show(scale_arg, 3)}", f"the transitions are discretised with output_scale = {T.show(scale_arg, 3)}, which is not an all-ones array by value: "
